@@ -49,6 +49,10 @@ def tables(tier):
                 yield 'int', [list(cells[i * c:(i + 1) * c]) for i in range(r)]
         for cells in itertools.product((0, 1), repeat=16):
             yield 'int', [list(cells[i * 4:(i + 1) * 4]) for i in range(4)]
+    # floats whose extremes are integral (a float table must never be treated like the int/bool table with the same range)
+    for r, c in [(1, 2), (2, 1), (2, 2)] + ([(2, 3), (3, 2)] if not q else []):
+        for cells in itertools.product((0.0, 0.5, 1.0, 1.6, 2.0), repeat=r * c):
+            yield 'float-integral-extremes', [list(cells[i * c:(i + 1) * c]) for i in range(r)]
     bshapes = [(1, 1), (1, 2), (2, 1), (2, 2)] + ([] if q else [(2, 3), (3, 2)])
     for r, c in bshapes:
         for alpha, name in ((BOUNDARY, 'boundary'), (SIGNED, 'signed')):
